@@ -92,6 +92,9 @@ def qbT (q : QB) : Val :=
         match q.scale.transpose? 0 1 with
         | none => .fail .runtimeError
         | some s => .qb { q with axis := some (!af), size := [d1, d0], data := d, scale := s }
+  -- fewer than two dimensions: a no-op, as for a torch.Tensor (as repaired; the original raised ValueError)
+  | [_] => .qb q
+  | [] => .qb q
   | _ => .fail .valueError
 
 /-- `aten.neg`: int8 codes are negated with two's complement wrap-around; float8 → dequantize -/
